@@ -41,4 +41,7 @@ mkdir -p "$TD"
   [ -s "$OUT/hannibal.json" ] || { echo "CHECKER-ERROR no fact file written for cfg=$CFG" >&2; exit 3; }
   grep -q "\"nonce\":\"$NONCE\"" "$OUT/hannibal.json" || { echo "CHECKER-ERROR stale fact file for cfg=$CFG" >&2; rm -f "$OUT/hannibal.json"; exit 3; }
 ) 9>"$TD/.lock"
+
+# keep the fact cache small: drop all but the 40 most recently used trees
+ls -1dt "$V"/.cache/facts/*/ 2>/dev/null | tail -n +41 | xargs -r rm -rf
 echo "$OUT/hannibal.json"
